@@ -73,7 +73,8 @@ where
 
         // N.B. `self.iter.end` moves on `next_back()`, tail starts at range end.
         let elements_left = self.original_len - self.end;
-        let replace_end = self.start + self.replace_with.len();
+        let replace_len = self.replace_with.len();
+        let replace_end = self.start + replace_len;
         let new_len = replace_end + elements_left;
 
         // 0. capacity.
@@ -103,18 +104,39 @@ where
         }
 
         // 3. move replace_with in
+        // N.B. `ExactSizeIterator::len` is safe trait, it may lie: never write more
+        // than the reserved `replace_len` elements, and notice when there are fewer.
+        let mut replaced = 0;
         unsafe{
             let type_id = element_typeid(any_vec_ptr);
             let element_size = element_size(any_vec_ptr);
             let mut ptr = element_mut_ptr_at(any_vec_ptr, self.start);
-            while let Some(replace_element) = self.replace_with.next() {
+            while replaced < replace_len {
+                let replace_element = match self.replace_with.next() {
+                    Some(replace_element) => replace_element,
+                    None => break
+                };
                 assert_types_equal(type_id, replace_element.value_typeid());
                 replace_element.move_into::<
                     <ReplaceIter::Item as AnyValueSizeless>::Type
                 >(ptr, element_size);
                 ptr = ptr.add(element_size);
+                replaced += 1;
             }
         }
+
+        // 3.1 fewer elements than promised - close the gap.
+        if replaced < replace_len {
+            unsafe{
+                move_elements_at(
+                    any_vec_ptr,
+                    replace_end,
+                    self.start + replaced,
+                    elements_left
+                );
+            }
+        }
+        let new_len = self.start + replaced + elements_left;
 
         // 4. restore len
         {
